@@ -162,6 +162,38 @@ def run(ctx):
                          'lens': {f"skip_brute={a},all_lower={b}": len(v) for (a, b), v in fk.items()}, 'witness': {'spec': fspec}})
     except Exception as e:
         viol.append({'property': 'C14', 'kind': 'load-raised', 'error': repr(e)[:200], 'witness': {'spec': fspec}})
+    # 2c. whatever the seed: pre-terminals whose probabilities are different numbers within one part in a thousand million of each other
+    # (0.1 and 0.10000000005); P(M) = 0.5, so the rescaling is exact: the skip_brute stream is the default stream without M, same order
+    nspec = {'terminals': {'D1': [['7', '0.4'], ['3', '0.35'], ['1', '0.25']], 'D2': [['42', '0.4000000002'], ['12', '0.3499999999'], ['99', '0.2499999999']]},
+             'grammar': [['M', '0.5'], ['D1', '0.25'], ['D2', '0.25']], 'omen_prob': [['1', '0.25'], ['2', '0.125']], 'prince': [], 'mode': 'near',
+             'encoding': 'utf-8', 'omen': gen_omen.gen_omen(rng, ngram=2, nletters=2, maxlen_extra=1)}
+    nd = common.write_ruleset(os.path.join(rr, 'c14_near'), nspec)
+    try:
+        s0n = stream_groups(common.load_grammar(nd), drop_markov=True)
+        s1n = stream_groups(common.load_grammar(nd, skip_brute=True), drop_markov=False)
+        cases += 1
+        dist['near_tie_stream'] = 1
+        if [(f2h(p * 2), k) for p, k in s0n] != [(f2h(p), k) for p, k in s1n] or len(s0n) != 6:
+            viol.append({'property': 'C14', 'kind': 'skip-brute-stream', 'variant': 'near ties', 'default': [(repr(p), str(k)) for p, k in s0n][:6],
+                         'skip_brute': [(repr(p), str(k)) for p, k in s1n][:6], 'witness': {'spec': nspec}})
+    except Exception as e:
+        viol.append({'property': 'C14', 'kind': 'load-raised', 'error': repr(e)[:200], 'witness': {'spec': nspec}})
+    # 2d. the same with a Markov share that is not a power of two and near ties across four structures: the *order* of the non-Markov
+    # pre-terminals is the same with and without the Markov items in the queue (dividing by 1 - P(M) is monotone)
+    mspec = {'terminals': {'D1': [['1', '0.4'], ['2', '0.35'], ['3', '0.25']], 'D2': [['11', '0.50000000005'], ['22', '0.3'], ['33', '0.19999999995']],
+                           'D3': [['111', '0.9999999998'], ['222', '0.0000000002']], 'O1': [['!', '0.6'], ['#', '0.4']]},
+             'grammar': [['M', '0.4'], ['D1', '0.25'], ['D2', '0.2'], ['D3', '0.1'], ['O1', '0.05']], 'omen_prob': [['1', '0.25'], ['2', '0.125'], ['3', '0.0625']],
+             'prince': [], 'mode': 'near', 'encoding': 'utf-8', 'omen': gen_omen.gen_omen(rng, ngram=2, nletters=2, maxlen_extra=1)}
+    md = common.write_ruleset(os.path.join(rr, 'c14_near2'), mspec)
+    try:
+        k0 = [x for _, k in stream_groups(common.load_grammar(md), drop_markov=True) for x in k]
+        k1 = [x for _, k in stream_groups(common.load_grammar(md, skip_brute=True), drop_markov=False) for x in k]
+        cases += 1
+        if k0 != k1 or len(k0) != 10:
+            viol.append({'property': 'C14', 'kind': 'skip-brute-stream', 'variant': 'near ties, order only', 'default': [str(x) for x in k0][:10],
+                         'skip_brute': [str(x) for x in k1][:10], 'witness': {'spec': mspec}})
+    except Exception as e:
+        viol.append({'property': 'C14', 'kind': 'load-raised', 'error': repr(e)[:200], 'witness': {'spec': mspec}})
     # 3. flags through save/restore (subprocess): run with the flag, then --load without it
     cli_runs = 0
     for i in range(ctx.scale(2, 8)):
